@@ -228,7 +228,7 @@ prop('C16', src='props/c16_wipe.cpp',
      rule='rapidcheck: (full-entropy 19-byte secret, birthday, user features, language, coin, password with a 12-letter random tail, 32-byte mask, scenario) x ten plain builds (gcc and clang at -O0 -O1 -O2 -O3 -Os, linked -z now). Each API call - create, encode, decode and decode_explicit (success with composed and decomposed input, plus one of: word-count error, language error, checksum error, wrong coin, allocation failure, unsupported features), store, load (success plus one of checksum/format/format/allocation failure, and unsupported), keygen, getters, crypt, free - runs on a dedicated 256 KiB stack pre-filled with 0xA5; '
           'afterwards the dead stack is searched for any 8 consecutive bytes of the secret (old and new), the random bytes, the mask, the password (raw and NFKD), any 12 consecutive bytes of the phrase (NFC and NFKD), and any 4 consecutive word indices / polynomial coefficients as 16-, 32- or 64-bit arrays. The injected wipe function fills 0xEE ("mark" mode): the block handed to the injected free must be entirely 0xEE and the wipe call immediately before the free must cover it. '
           'Every case is non-trivial (all calls handle secret items); distinct = fingerprint of the case.',
-     required_classes={'any': ['call:create', 'call:encode', 'call:crypt', 'call:free', 'exit:decode/OK', 'exit:decode/NUM_WORDS', 'exit:decode/LANG', 'exit:decode/CHECKSUM', 'exit:decode/MEMORY', 'exit:decode/UNSUPPORTED', 'exit:decode_explicit/OK', 'exit:decode_explicit/LANG', 'exit:load/OK', 'exit:load/CHECKSUM', 'exit:load/FORMAT', 'exit:load/MEMORY', 'exit:load/UNSUPPORTED']},
+     required_classes={'any': ['call:create', 'call:encode', 'call:crypt', 'call:free', 'exit:decode/OK', 'exit:decode/NUM_WORDS', 'exit:decode/LANG', 'exit:decode/CHECKSUM', 'exit:decode/MEMORY', 'exit:decode/UNSUPPORTED', 'exit:decode/MULT_LANG', 'exit:decode_explicit/OK', 'exit:decode_explicit/LANG', 'exit:load/OK', 'exit:load/CHECKSUM', 'exit:load/FORMAT', 'exit:load/MEMORY', 'exit:load/UNSUPPORTED']},
      assumptions=['memory inspection only: registers, caches and kernel copies are out of reach; compiler coverage is the ten listed builds', 'thresholds are 8 bytes / 12 phrase bytes / 4 indices: single spilled scalars are not demanded to be absent'],
      technique='property-based testing (rapidcheck) with a dead-stack residue scan on a dedicated context stack and inspection of the freed block, across ten compiler/optimisation builds',
      level_text='For every generated case each API function and exit path is executed on a patterned stack which is then searched for secret-derived byte patterns; the freed block is inspected at release time with a marking wipe function. Exploration over inputs and ten compiler configurations.')
@@ -247,7 +247,7 @@ prop('C20', src='props/c20_threads.cpp', engine='rapidcheck + ThreadSanitizer', 
      plan={'quick': [{'variant': 'tsan', 'workers': 12, 'cap_to_cores': True}], 'thorough': [{'variant': 'tsan', 'workers': 16, 'timeout': 14400}]},
      rule='rapidcheck thread scripts on a ThreadSanitizer build (clang -fsanitize=thread, halt_on_error): N in {2,4,8,16} threads start together and each runs its own generated operation sequence (create, load, decode, decode_explicit, crypt, encode, store, keygen, queries, free, allocation-failure arming; 10-50 operations) on its own seed objects; dependencies are injected and features enabled once before the threads start; the lock-free thread_local stubs yield (sched_yield or a short spin, per case) at every dependency call. '
           'Oracle: no ThreadSanitizer report; every thread\'s transcript (status counters, store image of each of its seeds after every step, last KDF arguments) equals the transcript of the same script executed alone afterwards. Non-trivial = at least two threads were in flight at the same time (relaxed atomic counter); distinct = fingerprint of the scripts.',
-     required_classes={'any': ['overlapping(>=2 threads in flight)', 'threads:2', 'threads:8', 'threads:16']},
+     required_classes={'any': ['overlapping(>=2 threads in flight)', 'threads:2', 'threads:8', 'threads:16', 'allocator:libc-default', 'allocator:injected']},
      assumptions=['ThreadSanitizer happens-before analysis over sampled schedules: no liveness guarantee, and a race needing an access pair the scripts never produce is missed', 'a TSan report is reported even if a replay of the same scripts does not reproduce it (schedules cannot be pinned)'],
      technique='property-based testing of concurrent schedules (rapidcheck-generated per-thread operation scripts, yielding stubs) under ThreadSanitizer, with serial-transcript equality',
      level_text='Schedules are sampled, not enumerated: ThreadSanitizer flags any pair of conflicting unsynchronised accesses that the scripts execute, and per-thread transcripts are compared with a serial run. Exploration.')
